@@ -371,6 +371,10 @@ class CodeGenerator(NodeVisitor):
         # Tracks parameter definition blocks
         self._param_def_block: list[set[str]] = []
 
+        # Namespace objects already checked by the assignment being compiled,
+        # for targets that also rebind the namespace's name.
+        self._checked_ns_refs: dict[str, str] = {}
+
         # Tracks how many loop bodies enclose the current position in
         # the function being generated, one entry per function.
         self._loop_depth: list[int] = [0]
@@ -1613,6 +1617,13 @@ class CodeGenerator(NodeVisitor):
         # that for each ref here, before assignment code is emitted. This can't
         # be done in visit_NSRef as the ref could be in the middle of a tuple.
         seen_refs: set[str] = set()
+        # Names the same target also rebinds, `ns, ns.a = c, d`. The attribute
+        # must be stored on the object that was checked, not on the new value.
+        rebound = {
+            name.name
+            for name in node.target.find_all(nodes.Name)
+            if name.ctx == "store"
+        }
 
         for nsref in node.find_all(nodes.NSRef):
             if nsref.name in seen_refs:
@@ -1630,10 +1641,16 @@ class CodeGenerator(NodeVisitor):
             )
             self.outdent()
 
+            if nsref.name in rebound:
+                checked = self.temporary_identifier()
+                self.writeline(f"{checked} = {ref}")
+                self._checked_ns_refs[nsref.name] = checked
+
         self.newline(node)
         self.visit(node.target, frame)
         self.write(" = ")
         self.visit(node.node, frame)
+        self._checked_ns_refs.clear()
         self.pop_assign_tracking(frame)
 
     def visit_AssignBlock(self, node: nodes.AssignBlock, frame: Frame) -> None:
@@ -1703,7 +1720,7 @@ class CodeGenerator(NodeVisitor):
         # visit_Assign emits code to validate that each ref is to a Namespace
         # object only. That can't be emitted here as the ref could be in the
         # middle of a tuple assignment.
-        ref = frame.symbols.ref(node.name)
+        ref = self._checked_ns_refs.get(node.name) or frame.symbols.ref(node.name)
         self.writeline(f"{ref}[{node.attr!r}]")
 
     def visit_Const(self, node: nodes.Const, frame: Frame) -> None:
